@@ -24,6 +24,14 @@ FILE = "src/ahbicht/validation/validation.py"
 VAR = "text_to_be_evaluated_by_format_constraint"
 
 
+def _ancestors(model, fn, node):
+    parents = model.parents(fn)
+    cur = parents.get(id(node))
+    while cur is not None and cur is not fn.node:
+        yield cur
+        cur = parents.get(id(cur))
+
+
 def check(ctx: Ctx) -> None:
     model = ctx.model
     fmod = model.module(FCE)
@@ -57,10 +65,23 @@ def check(ctx: Ctx) -> None:
             ctx.ob("C15.writer", "before-evaluation", bool(eval_lines) and call.lineno < min(eval_lines), "the .set() does not precede the evaluation of the element's expression", file=FILE, line=call.lineno, function=owner.qualname)
     # own task: every call path into the owner from validate_segment goes through an argument of asyncio.gather
     seg = model.func(f"{VAL}.validate_segment")
-    gathers = [n for n in ast.walk(seg.node) if isinstance(n, ast.Call) and (dotted(n.func) or "") == "asyncio.gather"]
-    awaited_direct = [n for n in ast.walk(seg.node) if isinstance(n, ast.Await) and isinstance(n.value, ast.Call) and (dotted(n.value.func) or "").startswith("validate_data_element")]
-    ctx.ob("C15.task", "gather", bool(gathers) and not awaited_direct,
-           "validate_segment awaits the data element validations directly instead of gathering them: they would share one context", file=FILE, line=seg.node.lineno, function=seg.qualname)
+    # (the functional side - each element sees its own input under every schedule - is C15.own-input; this rule names the
+    # construct when the element validations are awaited one after the other, i.e. in one shared context)
+    awaited_direct = []
+    for q in model.reachable(seg):
+        f_ = model.functions.get(q)
+        if f_ is None or f_.module.name.endswith("_vstat_stub"):
+            continue
+        for n in ast.walk(f_.node):
+            if isinstance(n, ast.Await) and isinstance(n.value, ast.Call):
+                tgt = model.resolve_expr(f_.module, n.value.func) if isinstance(n.value.func, (ast.Name, ast.Attribute)) else None
+                name = getattr(tgt, "qualname", "") or ""
+                if name == f"{VAL}.validate_data_element" and any(isinstance(p_, (ast.For, ast.AsyncFor, ast.While, ast.ListComp, ast.GeneratorExp, ast.DictComp, ast.SetComp))
+                                                                  for p_ in _ancestors(model, f_, n)):
+                    awaited_direct.append((f_, n))
+    ctx.ob("C15.task", "gather", not awaited_direct,
+           f"{awaited_direct[0][0].qualname if awaited_direct else ''} awaits the data element validations one after the other in a loop instead of gathering them: they share one context",
+           file=FILE, line=(awaited_direct[0][1].lineno if awaited_direct else seg.node.lineno), function=seg.qualname)
     for fn in model.functions.values():
         for n in walk_shallow(fn.node):
             if isinstance(n, ast.Call) and any(kw.arg == "context" for kw in n.keywords) and (dotted(n.func) or "").split(".")[-1] in ("create_task", "ensure_future", "Task", "call_soon", "run"):
